@@ -176,8 +176,8 @@ pub fn property() -> Property {
         subs: vec![prop_sub(
             "preamble",
             "generated preambles (ids, roles, flag bytes, 0..12 pairs with interned/mixed-case/non-UTF-8/empty/duplicate names, lengths around 127/128, rare pairs > 65535) x Params segmentations (one record, every k bytes, random cuts, cuts aimed at length prefixes) x padding 0..255 x interleaved GetValues/unknown/foreign records x 2 buffer sizes x 3 chunkings; every run must equal the record-level model (id, role, flags, env by three spellings, leftover bytes, replies); non-trivial = >=1 pair crosses a Params record boundary and the wire is fed in >=2 calls; distinct = hash of the case",
-            40_000,
-            1_500_000,
+            80_000,
+            2_000_000,
             |_| case_strategy(true),
             test,
         )],
